@@ -86,6 +86,21 @@ fn lists(ctx: &mut Ctx, n: usize, prefix: &mut Vec<usize>, f: &mut dyn FnMut(&mu
     }
 }
 
+/// the same rule with every `if` spelled `?:`
+fn rename_if(v: &Value) -> Value {
+    match v {
+        Value::Array(a) => Value::Array(a.iter().map(rename_if).collect()),
+        Value::Object(m) => {
+            let mut o = serde_json::Map::new();
+            for (k, x) in m {
+                o.insert(if k == "if" { "?:".to_string() } else { k.clone() }, rename_if(x));
+            }
+            Value::Object(o)
+        }
+        x => x.clone(),
+    }
+}
+
 pub fn run(ctx: &mut Ctx) {
     let maxlen = if ctx.tier_thorough { 7 } else { 6 };
     let da = data_a();
@@ -191,6 +206,35 @@ pub fn run(ctx: &mut Ctx) {
                 ctx.law_fail("law:if==?:", &op("?:", args), &da, o1.show(), o2.show());
             }
             k += step;
+        }
+    }
+    // deep nesting: control flow inside control flow to depth 1..100, every level traced
+    // (each level is an object plus an array: 60 levels stay within the depth of 128 that the text interfaces deliver)
+    for depth in [1usize, 2, 3, 5, 8, 13, 21, 34, 55, 60] {
+        if !ctx.mine() {
+            continue;
+        }
+        for (k, fill_first, leaf) in [("and", json!({"log": "L"}), json!({"log": [0]})), ("or", json!({"log": [0]}), json!({"log": "leaf"})), ("and", json!({"log": "L"}), json!({"log": "leaf"})), ("or", json!({"log": [0]}), json!({"log": [""]}))] {
+            ctx.edge();
+            let mut r = leaf.clone();
+            for _ in 0..depth {
+                r = op(k, vec![fill_first.clone(), r, json!({"+": ["x"]})]);
+            }
+            ctx.check(&format!("{}:deep", k), &r, &da);
+        }
+        for (c, leaf) in [(json!({"log": [0]}), json!({"log": "else-leaf"})), (json!({"log": "c"}), json!({"log": "then-leaf"}))] {
+            ctx.edge();
+            // if in the else position / in the then position
+            let mut r = leaf.clone();
+            for i in 0..depth {
+                r = if c["log"].is_array() { op("if", vec![c.clone(), json!({"==": []}), r]) } else { op("if", vec![c.clone(), r, json!({"log": format!("never{}", i)})]) };
+            }
+            let o1 = ctx.check("if:deep", &r, &da);
+            let r2 = rename_if(&r);
+            let o2 = ctx.check("?::deep", &r2, &da);
+            if o1.out != o2.out || o1.log != o2.log {
+                ctx.law_fail("law:if==?:", &r2, &da, o1.show(), o2.show());
+            }
         }
     }
     // bracket-less single operand and non-array operands
